@@ -70,6 +70,7 @@ fn main() {
             c22::run_deep_recursion(args.seed, (args.n / 10).max(20), &mut o);
             c22::run_nested_imports(args.seed, (args.n / 10).max(20), &mut o);
             c22::run_fold_then_recurse(args.seed, (args.n / 10).max(20), &mut o);
+            c22::run_optional_nested_folds(args.seed, (args.n / 10).max(20), &mut o);
             o.finish();
         }
         "c06" => {
@@ -84,6 +85,7 @@ fn main() {
             c22::run_deep_recursion(args.seed, (args.n / 10).max(20), &mut o);
             c22::run_nested_imports(args.seed, (args.n / 10).max(20), &mut o);
             c22::run_fold_then_recurse(args.seed, (args.n / 10).max(20), &mut o);
+            c22::run_optional_nested_folds(args.seed, (args.n / 10).max(20), &mut o);
             o.finish();
         }
         "c22" => {
